@@ -121,11 +121,9 @@ def nextAfter : List (Nat × Nat) → Nat → Option (Nat × Nat)
   | [], _ => none
   | e :: rest, k => if e.1 = k then rest.head? else nextAfter rest k
 
-/-- `get_predecessor_node` of the node holding key `k` -/
-def prevBefore : List (Nat × Nat) → Nat → Option (Nat × Nat)
-  | [], _ => none
-  | [_], _ => none
-  | a :: b :: rest, k => if b.1 = k then some a else prevBefore (b :: rest) k
+/-- `get_predecessor_node` of the node holding key `k`: the previous entry of the in-order walk,
+i.e. the next entry of the walk in the opposite direction -/
+def prevBefore (l : List (Nat × Nat)) (k : Nat) : Option (Nat × Nat) := nextAfter l.reverse k
 
 /-! ### deletion -/
 
